@@ -130,9 +130,13 @@ func (w *World) Step(bs BlockSpec, ex Excl) (*StepResult, error) {
 	if res.PeriodEnd {
 		// inactivity slashing at this period end (before the rewards are distributed) takes
 		// every online chamber validator offline that has not proposed for more than
-		// InactivityPenaltyWaitRounds; the proposer of this block is active by definition.
+		// InactivityPenaltyWaitRounds. The proposer of this block is marked active by
+		// rewardsToPool - but only if the block has rewards at all (rewardsToPool returns
+		// before UpdateLastActive when gas rewards + residue + subsidy is 0), which is
+		// certain only while the rewards pool account is not empty.
+		proposerMarked := st.GetBalance(w.yp.RewardsPoolAddress).Sign() > 0
 		for _, v := range vals {
-			if v.Role != params.RoleHouse && v.IsOnline() && v.MainAddress() != cb && num-v.LastActive() > w.yp.InactivityPenaltyWaitRounds {
+			if v.Role != params.RoleHouse && v.IsOnline() && !(proposerMarked && v.MainAddress() == cb) && num-v.LastActive() > w.yp.InactivityPenaltyWaitRounds {
 				delete(survivors, v.MainAddress())
 			}
 		}
